@@ -62,6 +62,19 @@ ExtScenarios == IF InputFile = "" THEN {} ELSE LET js == JsonDeserialize(InputFi
 
 MCDbInputs == LkScenarios \cup RichScenarios \cup ExtScenarios
 
+\* ---- histories: a lookup is answered, a further database with entities of every looked-up kind is merged,
+\*      every stored name is looked up; all 6 x 6 pairs (function answered first, function used later),
+\*      with and without a database loaded before the first lookup
+LookupFns == {QF[x].fn : x \in {y \in 1..Len(QF) : QF[y].op = "lookup"}}
+Stage1Db == LkDb(<<[n |-> a, s |-> sa, t |-> a]>>, <<[n |-> <<120>>, s |-> <<99, 58, 58, 120>>]>>, <<<<77>>>>)
+Stage2Db == LkDb(<<[n |-> b, s |-> <<117, 58, 58, 98>>, t |-> b], [n |-> <<99>>, s |-> <<117, 58, 58, 99>>, t |-> <<99>>]>>,
+                 <<[n |-> <<121>>, s |-> <<100, 58, 58, 121>>], [n |-> <<120>>, s |-> <<100, 58, 58, 120>>]>>,
+                 <<<<78>>, <<80>>>>)
+FirstName(fn) == LET d == QFBy(fn) IN RecAt(LoadAll(EmptyQ, <<WriteDb(Stage1Db, 3)>>), d.k, CHOOSE i \in Idxs(Stage1Db[d.k]) : TRUE)[d.f]
+MCStageInputs ==
+  {[name |-> "stage", files1 |-> f1, fn1 |-> fn1, nm1 |-> FirstName(fn1), files2 |-> <<WriteDb(Stage2Db, 3)>>, fn2 |-> fn2] :
+     f1 \in {<<>>, <<WriteDb(Stage1Db, 3)>>}, fn1 \in LookupFns, fn2 \in LookupFns}
+
 ---------------------------------------------------------------------------
 NameArgs(q, d) ==
   LET stored == {RecAt(q, d.k, i)[d.f] : i \in Idxs(q[d.k])}
@@ -83,8 +96,20 @@ DbRes(q) ==
        [] d.op = "uniq" ->      \* no module with a unique-name table is registered in a database scenario
             {[name |-> nm, ok |-> {0}] : nm \in NameArgs(q, d) \cup {<<113>>, <<113, 120, 54>>, <<113, 120, 54, 104>>}}]
 
+StageRec ==
+  LET q1 == LoadAll(EmptyQ, inp.files1)
+      q == LoadAll(EmptyQ, StageFiles(inp))
+      d1 == QFBy(inp.fn1)
+      d2 == QFBy(inp.fn2)
+      Ok(qq, d, nm) == IF Bearers(qq, d, nm) = {} THEN {0} ELSE Bearers(qq, d, nm)
+  IN [task |-> task, files1 |-> inp.files1, files2 |-> inp.files2, fn1 |-> inp.fn1, nm1 |-> inp.nm1,
+      ok1 |-> Ok(q1, d1, inp.nm1), fn2 |-> inp.fn2,
+      lk |-> {[name |-> nm, ok |-> Ok(q, d2, nm), later |-> Bearers(q1, d2, nm) = {} /\ Bearers(q, d2, nm) # {}]
+              : nm \in StoredNames(q, d2) \cup {<<122, 122>>}}]
+
 Rec ==
-  CASE task = "db" -> LET q == QOf(inp) IN
+  CASE task = "stage" -> StageRec
+    [] task = "db" -> LET q == QOf(inp) IN
          [task |-> task, name |-> inp.name, files |-> IF inp.gen THEN inp.files ELSE <<>>,
           next |-> q.next, nrec |-> NumRecs(q), idx |-> IdxArgs(q), res |-> DbRes(q)]
     [] OTHER -> [task |-> task, inp |-> inp, res |-> res, steps |-> steps]
